@@ -157,6 +157,19 @@ CLAIMED = {
         'tolerance 1e-4. Closed under the global context.',
    technique='Coq exhaustive-check-with-soundness-proof over generated flag scripts + Q-arithmetic theorems over generated schedule expressions + in-Coq replay of recorded calls',
    design='5 C19'),
+ 'C17': dict(
+   text='Coq theorems about Pars.update whose three type-dispatch tables are REGENERATED from parameters.py (each arm must translate to a recognised action: store, re-parameterise by value / list / '
+        'keywords, build a distribution, recurse, or raise TypeError): an unknown name makes a strict update raise KeyNotFound and success implies every name was known; after any successful update every '
+        'supplied value is in effect (stored as given, or the existing distribution / time parameter re-parameterised with exactly it) and every other parameter is untouched -- for all stores and '
+        'all update dicts; values that are none of number / list / dict / distribution / time parameter / function (strings, None, arrays, modules, tuples) are rejected for distributions and time '
+        'parameters; Bernoulli and duration guards; the accepted forms with their effects. The isinstance facts assumed per value kind and the outcome of the real Pars.update on every parameter of '
+        'every built-in module class x 15 value forms are compared with the model in Coq; constructor / pars-dict / Sim-level routes, unknown names at every route, equivalent spellings '
+        '(bit-identical results) and user-held module objects are evaluated on the implementation.',
+   note='Trusted: Coq kernel, translator (dispatch-table extraction; shape pins on check_key_mismatch, Module.update_pars / define_pars, Sim.__init__ merge-and-copy), harness. Updates of module '
+        'containers (ndict) and of modules are delegated (outcome class only). Errors raised deeper (Dist.set / TimePar.set) count as rejections. Equivalence of spellings and non-mutation of '
+        'user-held objects are decided on the implementation (oracle), not by a theorem: partial for those clauses. Closed under the global context.',
+   technique='Coq proofs over generated type-dispatch tables of the parameter updater + in-Coq differential evaluation over all built-in module parameters',
+   design='5 C17'),
 }
 
 checks = []
